@@ -23,7 +23,7 @@ import (
 func C04(c *Ctx) {
 	r := c.R
 	r.Technique = "variant instantiation (32 template variants) + builder-derived grammar skeleton type-checked with go/types; AST/constant rules on builder.go; key-set agreement with the toolchain's unicode tables"
-	r.Explanation = "Decided: (a) every one of the 32 template variants parses and type-checks together with a maximal grammar skeleton derived from builder.go's format strings (both arms of every if), i.e. every struct, field and method expression the builder can emit exists with a compatible type in the runtime under every flag combination; thorough additionally runs go vet on each variant as a scratch module; (b) the generated method name is an injective function of (rule name, expression index); (c) definition and reference of each code-block method use the same name and the same label list; (d) every Unicode class name the front-end accepts is a key of unicode.Categories/Properties/Scripts of the toolchain; (e) the checker's instantiation is the one builder.writeStaticCode performs. Not decided: user code blocks, goimports, label clashes created by -optimize-grammar inlining."
+	r.Explanation = "Decided: (a) every one of the 32 template variants parses and type-checks together with a maximal grammar skeleton derived from builder.go's format strings (both arms of every if), i.e. every struct, field and method expression the builder can emit exists with a compatible type in the runtime under every flag combination; thorough additionally runs go vet on each variant as a scratch module; (b) the generated method name is an injective function of (rule name, expression index); (c) definition and reference of each code-block method use the same name and the same label list; (d) every Unicode class name the front-end accepts is a key of unicode.Categories/Properties/Scripts of the toolchain; (e) the checker's instantiation is the one builder.writeStaticCode performs. Not decided: user code blocks, goimports."
 	r.Assumptions = []string{"text/template, go/parser, go/types and go vet implement the Go specification", "user code blocks are well-typed (hypothesis of the property)"}
 	r.Rule("C04-a", "for every parameter vector the instantiated template, together with the skeleton of everything builder.go can emit under the corresponding builder flags, parses and type-checks (thorough: and passes go vet)")
 	r.Rule("C04-b", "builder.funcName must be injective on (rule name, index): the decimal index must be preceded by a constant separator ending in a non-digit, because rule names may end in digits")
@@ -38,6 +38,7 @@ func C04(c *Ctx) {
 	c04OutputTruncated(c)
 	r.Rule("C04-n", "a code block receives the labels of its scope: operands that the runtime evaluates in one variable frame - the two operands of a recovery operator, the items of a sequence - are visited by writeExprCode within one pushArgsSet/popArgsSet bracket, so a block in one operand gets the labels of the other as parameters (C02-d under this property)")
 	builderOperandScopes(c, "C04-n")
+	builderLabelsDistinct(c, "C04-o")
 	r.Rule("C04-m", "keys the builder emits per list element are distinct: a loop that writes one `key: value` entry of a map literal (or one `case key:`) per element ranges over the key set of a Go map or skips elements it has already seen; a list taken from the grammar as written (the labels of a recovery operator) may repeat an element, and two equal constant keys do not compile")
 	if g := c.G(); g != nil {
 		c04DistinctKeys(c, g)
